@@ -4,8 +4,9 @@
    holds, meshes, names) is proved for the model of the code, for every size; the DFT itself
    (scipy's) is an abstract transform over any commutative ring with a root of unity w
    (hypotheses: w^n = 1 and sum_k w^(d k) = 0 for 0 < d < n). *)
-From DF Require Import Prelude Constants_gen Region Mesh Fft C11_shift C11_kmesh C11_names C11_dft C11_dftn.
+From DF Require Import Prelude Constants_gen Region Mesh Fft C11_shift C11_kmesh C11_names C11_dft C11_dftn C11_arrange C11_shape.
 From Coq Require Import ZArithRing.
+Open Scope Q_scope.
 
 (* ---------------------------------------------------------------- shifts *)
 (* ifftshift undoes fftshift (and vice versa) for every size *)
@@ -178,6 +179,95 @@ Theorem C11_mirror : forall (K : Type) (k0 k1 : K) (kadd kmul ksub : K -> K -> K
   dft k0 k1 kadd kmul w n x (n - k) = ksum k0 kadd n (fun j => kmul (x j) (kpow k1 kmul (winv k1 kmul w n) (j * k))).
 Proof. exact dft_mirror. Qed.
 Print Assumptions C11_mirror.
+
+(* ---------------------------------------------------------------- n-d inversion of the DFT *)
+(* any number of axes, any shape, one root per axis: ifftn o fftn = N id and fftn o ifftn = N id
+   (N = product of the axis lengths) *)
+Theorem C11_inverse_nd : forall (K : Type) (k0 k1 : K) (kadd kmul ksub : K -> K -> K) (kopp : K -> K),
+  ring_theory k0 k1 kadd kmul ksub kopp eq ->
+  forall (ws : list K) (ns r : list nat), roots k0 k1 kadd kmul ws ns r ->
+  (forall x : list nat -> K,
+     dftn k0 k1 kadd kmul (winvs k1 kmul ws ns) ns (fun k => dftn k0 k1 kadd kmul ws ns x k) r
+     = kmul (x r) (prodn k0 k1 kadd kmul ns)) /\
+  (forall X : list nat -> K,
+     dftn k0 k1 kadd kmul ws ns (fun k => dftn k0 k1 kadd kmul (winvs k1 kmul ws ns) ns X k) r
+     = kmul (X r) (prodn k0 k1 kadd kmul ns)).
+Proof.
+  exact (fun K k0 k1 kadd kmul ksub kopp KR ws ns r H =>
+           conj (fun x => dftn_inverse K k0 k1 kadd kmul ksub kopp KR ws ns r x H)
+                (fun X => dftn_inverse_r K k0 k1 kadd kmul ksub kopp KR ws ns r X H)).
+Qed.
+Print Assumptions C11_inverse_nd.
+Example C11_inverse_nd_nonvacuous : roots 0%Z 1%Z Z.add Z.mul [(-1)%Z; (-1)%Z] [2%nat; 2%nat] [1%nat; 0%nat].
+Proof. exact roots_nonvacuous. Qed.
+
+(* ---------------------------------------------------------------- arrays: inverse o forward *)
+(* the shifts of the inverse transforms undo those of the forward ones on every axis (all axes,
+   resp. axes[:-1] for the real kind), for every shape incl. odd sizes: un-arranging the array of
+   fftn / rfftn gives back the natural-order (half) spectrum *)
+Theorem C11_shifts_cancel_nd : forall (V : Type) (d : V) (real : bool) (ns : list Z) (bins : list V),
+  Forall (fun k => (1 <= k)%Z) ns ->
+  unarrange d real (kshape real ns) (arrange d real ns bins) = half_spectrum d real ns bins.
+Proof. exact @unarrange_arrange. Qed.
+Print Assumptions C11_shifts_cancel_nd.
+
+(* with scipy's transforms as parameters (F forward, Gc / Gr its complex / real inverse):
+   Field.ifftn (Field.fftn x) = x, and Field.irfftn (Field.rfftn x, shape = original counts) = x
+   for every last-axis size, odd ones included *)
+Theorem C11_inverse_field : forall (V : Type) (d : V) (F Gc Gr : list Z -> list V -> list V) (isreal : list V -> Prop),
+  (forall ns x, length x = Z.to_nat (zprod ns) -> length (F ns x) = Z.to_nat (zprod ns)) ->
+  (forall ns x, length x = Z.to_nat (zprod ns) -> Gc ns (F ns x) = x) ->
+  (forall ns x, length x = Z.to_nat (zprod ns) -> isreal x -> Gr ns (half_spectrum d true ns (F ns x)) = x) ->
+  forall (ns : list Z) (x : list V), Forall (fun k => (1 <= k)%Z) ns -> length x = Z.to_nat (zprod ns) ->
+  field_ifftn Gc d (kshape false ns) (field_fftn F d false ns x) = x /\
+  (isreal x -> field_irfftn Gr d ns (kshape true ns) (field_fftn F d true ns x) = x).
+Proof.
+  exact (fun V d F Gc Gr isreal HF HGc HGr ns x Hp Hl =>
+           conj (ifftn_fftn V d F Gc HF HGc ns x Hp Hl)
+                (irfftn_rfftn V d F Gr isreal HGr ns x Hp Hl)).
+Qed.
+Print Assumptions C11_inverse_field.
+Example C11_inverse_field_nonvacuous :
+  let F := fun (_ : list Z) (x : list unit) => x in
+  let Gc := fun (_ : list Z) (y : list unit) => y in
+  let Gr := fun (ns : list Z) (_ : list unit) => repeat tt (Z.to_nat (zprod ns)) in
+  (forall ns x, length x = Z.to_nat (zprod ns) -> length (F ns x) = Z.to_nat (zprod ns)) /\
+  (forall ns x, length x = Z.to_nat (zprod ns) -> Gc ns (F ns x) = x) /\
+  (forall ns x, length x = Z.to_nat (zprod ns) -> True -> Gr ns (half_spectrum tt true ns (F ns x)) = x).
+Proof. exact field_hyps_nonvacuous. Qed.
+
+(* ---------------------------------------------------------------- real half, n-d *)
+(* the real transform's array is the non-negative-frequency half of the full one along the last
+   axis: position t holds what fftn's array holds at t with its last entry moved to
+   ifftshift_src n t (frequency t mod n); all other axes are shifted alike *)
+Theorem C11_real_half_nd : forall (V : Type) (d : V) (ns : list Z) (bins : list V),
+  Forall (fun k => (1 <= k)%Z) ns ->
+  arrange d true ns bins =
+  map (fun t => nth (Z.to_nat (ravel_c ns (to_full ns t))) (arrange d false ns bins) d)
+      (indices_c (kshape true ns)).
+Proof. exact @real_half_nd. Qed.
+Print Assumptions C11_real_half_nd.
+
+(* ---------------------------------------------------------------- shape validation *)
+(* an explicit shape is accepted iff it has the mesh's length, equals the counts on all axes but
+   the last, and shape[-1]//2 + 1 = n[-1]; it is then used unchanged *)
+Theorem C11_ifft_shape : forall (ns : list Z) (rfft : bool) (s : list Z),
+  (ifft_shape ns rfft (ShList s) = OK s <->
+   length s = length ns /\ removelast s = removelast ns /\ (zlast s / 2 + 1 = zlast ns)%Z) /\
+  (is_ok (ifft_shape ns rfft (ShList s)) = true -> ifft_shape ns rfft (ShList s) = OK s).
+Proof. exact ifft_shape_accepts. Qed.
+Print Assumptions C11_ifft_shape.
+
+(* the original counts always pass for the k-mesh of the real transform (odd sizes too) and are
+   the default when the last count is even or 1 *)
+Theorem C11_ifft_shape_original : forall ns : list Z, ns <> [] ->
+  ifft_shape (kshape true ns) true (ShList ns) = OK ns /\
+  (((zlast ns mod 2 = 0)%Z \/ zlast ns = 1%Z) -> (1 <= zlast ns)%Z ->
+   ifft_shape (kshape true ns) true ShNone = OK ns).
+Proof. exact ifft_shape_original. Qed.
+Print Assumptions C11_ifft_shape_original.
+Example C11_ifft_shape_original_nonvacuous : [4%Z; 5%Z] <> [] /\ ((zlast [4; 6] mod 2 = 0)%Z /\ (1 <= zlast [4; 6])%Z).
+Proof. exact shape_original_nonvacuous. Qed.
 
 (* ---------------------------------------------------------------- names *)
 (* reciprocal dimension names, units and component labels are undone by the inverse transforms *)
